@@ -31,6 +31,8 @@ PUSH_AT = (0.0, 0.015, 0.03)
 OFFS = (-0.02, 0.0, 0.025)
 DURS = (0.0, 0.005, 0.035)
 STOP_AT = 0.3
+import datetime as _dt  # noqa: E402
+TZS = (_dt.timezone(_dt.timedelta(hours=-5)), _dt.timezone(_dt.timedelta(hours=5, minutes=30)), _dt.timezone.utc)
 
 
 def scenarios(tier, seed):
@@ -47,6 +49,8 @@ def scenarios(tier, seed):
                         if nidle == 2 and maxc == 50:
                             continue
                         out.append((arrivals, jobs, maxc, nidle))
+                        if jobs and maxc == 2 and nidle == 0:
+                            out.append((arrivals, jobs, maxc, nidle, True))
     # three arrivals on (mostly) one source: out-of-order chains
     alpha3 = [(si, at, off) for si in (0, 1) for at in PUSH_AT for off in OFFS]
     for arrivals in itertools.product(alpha3, repeat=3):
@@ -68,7 +72,8 @@ def scenarios(tier, seed):
 
 
 def make_run(sc, states=None):
-    arrivals, jobs, maxc, nidle = sc
+    arrivals, jobs, maxc, nidle = sc[:4]
+    tzmix = len(sc) > 4 and sc[4]
 
     def run_one(ch):
         d = bs.realtime_dispatcher(max_concurrent=maxc)
@@ -113,7 +118,8 @@ def make_run(sc, states=None):
                     await work("job")
                 finally:
                     active[0] -= 1
-            d.schedule(T(jt), j)
+            # the same instant expressed in another time zone (west / east of UTC, alternating): instants, not labels, count
+            d.schedule(T(jt).astimezone(TZS[ji % len(TZS)]) if tzmix else T(jt), j)
         for k in range(nidle):
             async def idle(k=k):
                 trace.append(("idle", k, round(now(), 6), active[0]))
@@ -124,7 +130,8 @@ def make_run(sc, states=None):
             for n, (si, at, off) in enumerate(arrivals):
                 if at > now():
                     await asyncio.sleep(at - now())
-                e = bs.Event(T(now() + off))
+                when = T(now() + off)
+                e = bs.Event(when.astimezone(TZS[n % len(TZS)]) if tzmix else when)
                 e._tag = n
                 srcs[si].push(e)
                 trace.append(("push", si, n, round(now(), 6), round(now() + off, 6)))
@@ -147,7 +154,7 @@ def make_run(sc, states=None):
 
 
 def oracle(sc, r):
-    arrivals, jobs, maxc, nidle = sc
+    arrivals, jobs, maxc, nidle = sc[:4]
     bad = []
     if r["out"] != "returned":
         bad.append(("run-outcome", r["out"]))
@@ -218,14 +225,14 @@ def run_scenario(sc, tier):
             first = False
         for clause, detail in bad:
             res.violation(f"{PROPERTY}:{clause}", f"{detail}; scenario={sc} choices={choices}",
-                          dict(scenario=[list(map(list, sc[0])), list(sc[1]), sc[2], sc[3]], choices=choices),
+                          dict(scenario=[list(map(list, sc[0])), list(sc[1]), sc[2], sc[3], len(sc) > 4 and sc[4]], choices=choices),
                           size=100 * (len(sc[0]) + len(sc[1])) + 10 * sc[3] + sum(1 for c in choices if c))
     return res
 
 
 def replay(rep):
     s = rep["scenario"]
-    sc = (tuple(tuple(a) for a in s[0]), tuple(s[1]), s[2], s[3])
+    sc = (tuple(tuple(a) for a in s[0]), tuple(s[1]), s[2], s[3], bool(s[4]) if len(s) > 4 else False)
     r = make_run(sc)(Chooser(rep["choices"]))
     print("scenario:", sc)
     for x in r["trace"]:
